@@ -666,6 +666,117 @@ def rule_templates(rep, idx):
         rep.add('R12', 'while:condition-values=%s' % script, ok, where + '::visitPost(WhileStatement&)', detail)
 
 
+def exec_subscript(M, env):
+    """Execute a straight-line template that addresses an array element.  Values are 32-bit ints, 'SP', ('base', label) for the
+    word loaded from an array's base label, ('addr', label, k) for base + k.  Returns (areg, [(address, value stored)])."""
+    from ..xmodel import wrap32
+    regs = {'A': None, 'B': None}
+    frame = {}
+    stores = []
+    for tk, d in M.instrs():
+        if tk == 'EXPR':
+            regs[d.fields['reg']] = M.X.meaning(d.fields['expr'], env)
+            if not d.fields.get('leaf'):
+                regs['B' if d.fields['reg'] == 'A' else 'A'] = None
+        elif tk in ('IDENTIFIER',) or d.cls == 'hexasm::Label':
+            continue
+        elif tk in ('LDAC', 'LDBC') and d.cls == 'hexasm::InstrImm':
+            regs['A' if tk == 'LDAC' else 'B'] = wrap32(d.fields['immValue'].lo)
+        elif tk in ('LDAM', 'LDBM') and d.cls == 'hexasm::InstrImm' and d.fields['immValue'].concrete() and d.fields['immValue'].lo == 1:
+            regs['A' if tk == 'LDAM' else 'B'] = 'SP'
+        elif tk in ('LDAM', 'LDBM') and d.cls == 'hexasm::InstrLabel':
+            regs['A' if tk == 'LDAM' else 'B'] = ('base', repr(d.fields.get('label')))
+        elif tk == 'OPR':
+            o = M.ratok.get(d.fields['opcode'].lo)
+            a, b = regs['A'], regs['B']
+            if o not in ('ADD', 'SUB'):
+                raise TemplateFault('unexpected OPR %s' % o)
+            if isinstance(a, int) and isinstance(b, int):
+                regs['A'] = wrap32(a + b if o == 'ADD' else a - b)
+            elif o == 'ADD' and isinstance(a, int) and isinstance(b, tuple) and b[0] in ('base', 'addr'):
+                regs['A'] = ('addr', b[1], wrap32((b[2] if b[0] == 'addr' else 0) + a))
+            elif isinstance(b, int) and isinstance(a, tuple) and a[0] in ('base', 'addr'):
+                k0 = a[2] if a[0] == 'addr' else 0
+                regs['A'] = ('addr', a[1], wrap32(k0 + b if o == 'ADD' else k0 - b))
+            else:
+                raise TemplateFault('%s of %r and %r' % (o, a, b))
+        elif tk in ('LDAI', 'LDBI') and d.cls == 'hexasm::InstrImm':
+            r = 'A' if tk == 'LDAI' else 'B'
+            v = regs[r]
+            if not (isinstance(v, tuple) and v[0] in ('base', 'addr')):
+                raise TemplateFault('%s through a register that holds no array address (%r)' % (tk, v))
+            regs[r] = ('mem', v[1], wrap32((v[2] if v[0] == 'addr' else 0) + d.fields['immValue'].lo))
+        elif tk == 'STAI' and d.cls == 'hexasm::InstrImm':
+            v = regs['B']
+            if not (isinstance(v, tuple) and v[0] in ('base', 'addr')):
+                raise TemplateFault('STAI through a register that holds no array address (%r)' % (v,))
+            stores.append((('mem', v[1], wrap32((v[2] if v[0] == 'addr' else 0) + d.fields['immValue'].lo)), regs['A']))
+        elif tk == 'STAI_FB':
+            if regs['B'] != 'SP':
+                raise TemplateFault('STAI_FB without the stack pointer in breg')
+            frame[repr(d.fields['offset'].aff)] = regs['A']
+        elif tk in ('LDAI_FB', 'LDBI_FB'):
+            r = 'A' if tk == 'LDAI_FB' else 'B'
+            if regs[r] != 'SP':
+                raise TemplateFault('%s without the stack pointer in its base register' % tk)
+            k = repr(d.fields['offset'].aff)
+            regs[r] = frame[k] if k in frame else ('base', 'slot' + k)       # an array formal: its slot holds the base address
+        else:
+            raise TemplateFault('unexpected instruction %s in a subscript template' % tk)
+    return regs['A'], stores
+
+
+def rule_subscripts(rep, idx, rid='R16'):
+    rep.rule(rid, 'array elements: reading a[e] leaves mem[base(a) + e] in areg and  a[e] := v  stores v to mem[base(a) + e], for index '
+             'expressions of the shapes x, c, x+c, c+x, x-c, c-x, x+y and every value of x in the ordering domain (the instruction '
+             'template is executed with a symbolic base address)', floor=14)
+    from .c07 import D
+    where = 'xcmp.hpp xcmp::CodeBuffer::ExprCodeGen::visitPost(ArraySubscriptExpr&) / StmtCodeGen::visitPost(AssStatement&)'
+    shapes = [('x', lambda X: X.var('a')), ('c', lambda X: X.num(5)), ('x+c', lambda X: X.binop('PLUS', X.var('a'), X.num(3))),
+              ('c+x', lambda X: X.binop('PLUS', X.num(3), X.var('a'))), ('x-c', lambda X: X.binop('MINUS', X.var('a'), X.num(3))),
+              ('c-x', lambda X: X.binop('MINUS', X.num(7), X.var('a'))), ('x+y', lambda X: X.binop('PLUS', X.var('a'), X.var('b')))]
+    for mode in ('read', 'write'):
+        for name, mk in shapes:
+            M = CodeGenModel(idx, 'A')
+            for n in ('a', 'b', 'v'):
+                M.symbol(n, 'VAR', 'f')
+            M.symbol('arr', 'ARRAY', '')
+            index = M.X.const_prop(mk(M.X))
+            orig_index = index
+            key = '%s arr[%s]' % (mode, name)
+            try:
+                if mode == 'read':
+                    M.X.visit_post(M.expr_visitor('A'), M.X.sub('arr', index))
+                else:
+                    st = M.I.construct('xcmp::AssStatement', [None, M.X.sub('arr', index), M.X.var('v')])
+                    M.X.visit_post(M.stmt_visitor(), st)
+            except NeedSplit as e:
+                rep.undecided(rid, key, 'not uniform: %s' % e, where)
+                continue
+            except Thrown as e:
+                rep.add(rid, key, False, where, 'code generation fails: %s' % e.what)
+                continue
+            bad = None
+            for xa in D:
+                env = {'a': xa, 'b': 1, 'v': 42}
+                want_k = xmodel.wrap32(M.X.meaning(orig_index, env))
+                try:
+                    areg, stores = exec_subscript(M, env)
+                except TemplateFault as e:
+                    bad = str(e)
+                    break
+                if mode == 'read':
+                    if not (isinstance(areg, tuple) and areg[0] == 'mem' and xmodel.wrap32(areg[2]) == want_k):
+                        bad = 'for %s the template reads %r, expected element %d of arr' % (env, areg, want_k)
+                        break
+                else:
+                    hit = [s_ for s_ in stores if isinstance(s_[0], tuple) and s_[0][0] == 'mem']
+                    if len(hit) != 1 or xmodel.wrap32(hit[0][0][2]) != want_k or hit[0][1] != 42:
+                        bad = 'for %s the template stores %r, expected v to element %d of arr' % (env, hit, want_k)
+                        break
+            rep.add(rid, key, bad is None, where, bad or 'template %s' % [t for t, _ in M.instrs()])
+
+
 def _is_leaf_expr(e):
     return isinstance(e, Obj) and (e.cls in ('xcmp::VarRefExpr', 'xcmp::NumberExpr', 'xcmp::BooleanExpr', 'xcmp::StringExpr') or
                                    e.fields.get('constValue') is not None)
@@ -904,6 +1015,7 @@ def run(rep, tier):
     rule_templates(rep, idx)
     rule_call_registers(rep, idx)
     rule_variable_slots(rep, idx)
+    rule_subscripts(rep, idx)
     # the expression optimiser preserves the X meaning (import of C07's rewrite-identity and fold rules)
     from . import c07
     c07.rule_rewrite(_Rename(rep, {'R2': 'R9'}), idx)
